@@ -57,6 +57,14 @@ def leading(t, depth=0):
     if n == 'terminated' and len(a) == 2:
         first, g = leading(a[0], depth + 1)
         guard = deref_all(a[1])
+        if guard[0] == 'call' and canon(guard[1]).endswith('combinator::peek') and guard[2]:
+            # terminated(X, peek(one_of("..."))): X must be followed by one of these characters
+            inner = deref_all(guard[2][0])
+            if inner[0] == 'call' and canon(inner[1]).endswith('one_of') and inner[2]:
+                v = deref_all(inner[2][0])
+                chars = v[1] if v[0] == 'const' and isinstance(v[1], str) else (''.join(chr(x) for x in v[1] if isinstance(x, int)) if v[0] == 'const' and isinstance(v[1], tuple) else None)
+                if chars is not None:
+                    return first, ('peek', frozenset(chars))
         guarded = guard[0] == 'call' and canon(guard[1]).endswith('combinator::not')
         if guarded and guard[2]:
             # not(one_of("...")): remember which characters the look-ahead excludes
@@ -664,3 +672,62 @@ def r09_11(ctx, run, rule='R09.11'):
     else:
         run.proved(rule, impl, 'parens', f'{n} operand writes: an operand is printed bare only when it is known not to be an && / || expression', loc)
     run.floor(rule, 'operand writes in Display for Expr', n, 4)
+
+
+
+# ------------------------------------------------------------------ R16.7 / R16.8 key-path specific grammar clauses
+
+def r16_7(ctx, run, rule='R16.7'):
+    """The plain-name scanner stops at the characters that delimit key-path elements and at the signs: a plain name can
+    neither swallow a delimiter nor begin with `+` / `-` (a malformed signed integer must be an error, not a name)."""
+    f = ctx.facts
+    b = f.bodies.get('jsonpath::parser::raw_string')
+    if b is None:
+        run.undecided(rule, 'jsonpath::parser::raw_string', 'stop-set', 'function not found (anchor lost)')
+        return
+    loops = natural_loops(b)
+    ex = Explorer(b, max_paths=3000)
+    stops = set()
+    advanced = set()
+    for h in sorted(loops):
+        for q in ex.explore(start=h, stop=set(loops)):
+            ks = [c[2] for c in q.conds if c[1] == 'eq' and isinstance(c[2], int) and not isinstance(c[2], bool) and c[0][0] in ('index', 'deref') or
+                  (c[1] == 'eq' and isinstance(c[2], int) and not isinstance(c[2], bool) and any(s_[0] == 'index' for s_ in subterms(c[0])))]
+            if not ks:
+                continue
+            k = ks[-1]
+            if q.end[0] in ('stop', 'backedge') and q.end[1] == h:
+                advanced.add(k)
+            elif q.end[0] in ('stop',) or q.end[0] == 'return':
+                # left the loop on this byte without consuming it (break), or returned
+                if not (q.end[0] == 'return' and agg_variant(q.ret) and q.ret[1][2] == 'Err'):
+                    stops.add(k)
+    need = {ord(c) for c in ' ,{}"+-'}
+    loc = f'{b.file}:{b.line}'
+    if not stops:
+        run.undecided(rule, b.path, 'stop-set', 'the bytes that end a plain name are not tested one by one in the scanner loop (a table or range is used): the stop set is not read by this rule', loc)
+        return
+    missing = sorted(chr(x) for x in need - stops)
+    if missing:
+        run.violation(rule, b.path, 'stop-set', f'the plain-name scanner does not stop at {missing}: such a character becomes part of a name, so e.g. a malformed signed integer or a '
+                      f'delimiter is accepted as (part of) a plain name instead of being an error / a separator', loc)
+    else:
+        run.proved(rule, b.path, 'stop-set', f'{len(stops)} stop bytes, including the key-path delimiters and both signs', loc)
+
+
+def r16_8(ctx, run, tabs, rule='R16.8'):
+    """The index alternative of a key-path element accepts an integer whatever follows it (the list grammar then skips
+    optional blanks before `,` / `}`): a look-ahead that demands `,` or `}` immediately would turn `{1 ,a}` into a name."""
+    for fn, members, e in tabs:
+        if fn != 'keypath::key_path':
+            continue
+        for m in members:
+            l, g = leading(m)
+            if l and l[0] == 'num':
+                t = e[5]
+                loc = f"{t.get('file')}:{t.get('line')}"
+                if isinstance(g, tuple) and g[0] == 'peek' and not ({' ', '\t', '\n'} & g[1]):
+                    run.violation(rule, fn, 'index-lookahead', f'the index alternative requires one of {sorted(g[1])} directly after the integer: with a blank after it (any spacing is allowed '
+                                  'inside the braces) the integer is no longer an index and is read as a plain name or rejected', loc)
+                else:
+                    run.proved(rule, fn, 'index-lookahead', 'the index alternative does not constrain the character after the integer', loc)
